@@ -460,6 +460,8 @@ def bank(pid, tier, seed):
                 cases.append(("ushl_i32", hx(a), hx(rng.choice([-1, 0, 5]))))
     elif pid == "C04":
         for a, b in signed(pairs(6)):
+            for op in ("ior", "iand", "ixor", "iadd", "isub", "iadd_assign", "isub_assign"):
+                cases.append((op, hx(a), hx(b)))
             cases.append(("icmp", hx(a), hx(b)))
             cases.append(("icmp", hx(a), hx(a)))
         for a, b in pairs(10):
